@@ -47,6 +47,10 @@ func (h *memory) GetLine(i int) (string, error) {
 		return "", nil
 	}
 
+	if i < 0 || i >= len(h.items) {
+		return "", errOutOfRangeIndex
+	}
+
 	return h.items[i], nil
 }
 
